@@ -31,7 +31,7 @@ LEGEND = {
     'keystore': 'key slot alg keyseed home; enc slot mlen adlen seed; dec slot mlen adlen seed tamper; save slot; restart slot where (bit0 other memory, bit1 dirty); free slot; siv alg mlen adlen seed',
     'cppobj': 'knob.rngdead r (operations at index % 8 == r run with the system entropy source dead; 99 = never); new obj class alg how keyseed (how 0 default 1 key ctor 2 NULL key 3 ISAP saved key 4 ISAP len 0); setkey obj how seed (0 full 1 zero-len NULL 2 zero-len non-NULL 3 saved ISAP key 4 length 7 then full); '
               'enc|dec obj mlen adlen seed overload [tamper] (byte_array overloads: seed bit 21 = the long-lived output array is reused and a by-value copy of its previous content is kept and re-checked); setnonce obj len seed; setcounter obj n; savekey|randomize|clear|del obj; hnew h kind how namelen customlen seed; hupd h overload len seed; hout h overload len; hcopy dst src; hassign dst src; hpad|hreset|hdel h; hdigest alg len seed; helper flags n shape seed (byte-array helpers vs the C functions; shape 0 clean 1 white space 2 illegal character 3 odd 4 mixed case 5 empty)',
-    'threads': 'knob.threads n; knob.sched mode rate seed changepoints (mode 0 Bernoulli 1/rate, 1 change points); op thread kind mlen adlen seed flags (bit0 shared constant inputs, bits1-2 == 01 tampered packet, bits3-4 == 01 the entropy source fails during the operation; kind 0-17 C API, 18-21 C++ wrappers, 22 masked key toolkit 23 copies from shared states/reinit variants/hex codec/bare state 24 PRNG reseed+save+load 25 every thread decrypts into its own 13-byte slice of one buffer 26 generators saving and loading through one shared constant storage descriptor, failing first write in a third)',
+    'threads': 'knob.threads n; knob.sched mode rate seed changepoints (mode 0 Bernoulli 1/rate, 1 change points); op thread kind mlen adlen seed flags (bit0 shared constant inputs, bits1-2 == 01 tampered packet, bits3-4 == 01 the entropy source fails during the operation; kind 0-17 C API, 18-21 C++ wrappers, 22 masked key toolkit 23 copies from shared states/reinit variants/hex codec/bare state 24 PRNG reseed+save+load 25 every thread decrypts into its own 13-byte slice of one buffer 26 generators saving and loading through one shared constant storage descriptor, failing first write in a third 27 every thread has its own 13-byte slice of one buffer encrypted by the masked AEADs)',
 }
 
 
